@@ -8,7 +8,7 @@ from ..gen_expr import Gen, datasets
 from ..refeval import evaluate
 from . import c02
 
-N_CASES = {"quick": 300, "thorough": 12000}
+N_CASES = {"quick": 300, "thorough": 300000}
 TIME_BUDGET = {"quick": 60, "thorough": 270}
 META = {
     "rule": "C02's generator plus literal projections with in-range / out-of-range / negative (UnaryOp and Constant) / "
